@@ -56,6 +56,7 @@ type Behaviour struct {
 		Maxblocks int  `json:"maxblocks"`
 		Hasprev   bool `json:"hasprev"`
 		Mode      string `json:"mode"` // pp | fep
+		L1shape   []int  `json:"l1shape"` // L1 block of each of the 5 info leaves (default one per block)
 	} `json:"cfg"`
 	Steps []Step `json:"steps"`
 }
@@ -450,7 +451,7 @@ func runOne(tw *tr.W, root string, idx int, b Behaviour, seed int64) error {
 	ctx := context.Background()
 	d := names.NewDict()
 	w := &world{seed: seed, dict: d, l1exit: names.NewAppendTree(d), otherLT: names.NewAppendTree(d), rollupT: names.NewUpdTree(d),
-		infoT: names.NewAppendTree(d), l2exit: names.NewAppendTree(d), finalized: 5}
+		infoT: names.NewAppendTree(d), l2exit: names.NewAppendTree(d), finalized: 5, l1shape: b.Cfg.L1shape}
 	if w.l1store, err = l1infotreesync.NewVerifL1InfoTreeSync(filepath.Join(dir, "l1info.sqlite")); err != nil {
 		return err
 	}
